@@ -318,6 +318,68 @@ func EnvStructPtrMixed(vals map[string]*m.Val, nilName string) interface{} {
 	return s.Interface()
 }
 
+// EnvStructMaybeByValue is EnvStruct, except that a PRESENT optional binding (and a present
+// optional field of a top-level object binding) is a field of the payload's own Go type tagged
+// maybe, holding the payload itself - 0, "", false included - instead of a non-nil pointer.
+// used reports whether any binding was represented that way.
+func EnvStructMaybeByValue(vals map[string]*m.Val) (out interface{}, used bool) {
+	names := sortedValKeys(vals)
+	fs := make([]reflect.StructField, len(names))
+	vs := make([]reflect.Value, len(names))
+	var byValue func(v *m.Val) (reflect.Type, reflect.Value)
+	byValue = func(v *m.Val) (reflect.Type, reflect.Value) {
+		if v.T.K != m.TObj {
+			return GoType(v.T), GoValue(v)
+		}
+		ffs := make([]reflect.StructField, len(v.T.F))
+		fvs := make([]reflect.Value, len(v.T.F))
+		for i, f := range v.T.F {
+			fv := v.L[i]
+			tag := fmt.Sprintf(`yae:"%s"`, f.Name)
+			if f.T.K == m.TMaybe {
+				tag = fmt.Sprintf(`yae:"%s,maybe"`, f.Name)
+			}
+			ft, gv := GoType(f.T), reflect.Value{}
+			if f.T.K == m.TMaybe && fv.P != nil {
+				ft, gv = byValue(fv.P)
+				used = true
+			} else {
+				gv = GoValue(fv)
+			}
+			ffs[i] = reflect.StructField{Name: fmt.Sprintf("F%d", i), Type: ft, Tag: reflect.StructTag(tag)}
+			fvs[i] = gv
+		}
+		st := reflect.New(reflect.StructOf(ffs)).Elem()
+		for i := range fvs {
+			st.Field(i).Set(coerce(fvs[i], ffs[i].Type))
+		}
+		return st.Type(), st
+	}
+	for i, n := range names {
+		v := vals[n]
+		tag := fmt.Sprintf(`yae:"%s"`, n)
+		if v.T.K == m.TMaybe {
+			tag = fmt.Sprintf(`yae:"%s,maybe"`, n)
+		}
+		var ft reflect.Type
+		switch {
+		case v.T.K == m.TMaybe && v.P != nil:
+			ft, vs[i] = byValue(v.P)
+			used = true
+		case v.T.K == m.TObj:
+			ft, vs[i] = byValue(v)
+		default:
+			ft, vs[i] = GoType(v.T), GoValue(v)
+		}
+		fs[i] = reflect.StructField{Name: fmt.Sprintf("F%d", i), Type: ft, Tag: reflect.StructTag(tag)}
+	}
+	st := reflect.New(reflect.StructOf(fs)).Elem()
+	for i := range vs {
+		st.Field(i).Set(coerce(vs[i], fs[i].Type))
+	}
+	return st.Interface(), used
+}
+
 // EnvMapMixedRows is EnvMap, except that every binding that is a slice of structs with two or
 // more fields becomes a []interface{} whose element i is a struct of ANOTHER Go type: the same
 // fields (same tags), declared in an order rotated by i. The yae types are the same as EnvMap's.
